@@ -67,8 +67,15 @@ def validate_case(case):
         raise Invalid()
 
 
-def check_views(v: Verdict, p, op, vals, where: str):
+def check_views(v: Verdict, p, op, vals, where: str, sport_first: bool = False):
     want = R.port_set(op, vals)
+    if sport_first:
+        first_sport = p.sport  # read the range string BEFORE the port list (the views must not depend on read order)
+        try:
+            if decode_sport(first_sport) != want:
+                v.fail(f"{where}:sport-read-first-decodes-to-other-set", {"line": p.line, "sport": first_sport[:80]})
+        except ValueError:
+            v.fail(f"{where}:sport-read-first-unparseable", {"line": p.line, "sport": first_sport[:80]})
     got = R.iv_from_values(p.ports)
     if got != want:
         v.fail(f"{where}:ports-set", {"line": p.line, "want": list(want)[:6], "got": list(got)[:6]})
@@ -291,7 +298,7 @@ def judge_history(case) -> Verdict:
             v.fail(f"hist:{cur['op']}:{name}-IndexError", {"before": before["line"], "error": str(ex),
                                                "trace": case["ops"][: step + 1]})
             return v
-        check_views(v, p, cur["op"], cur["v"], f"hist:{cur['op']}:after-{name}")
+        check_views(v, p, cur["op"], cur["v"], f"hist:{cur['op']}:after-{name}", sport_first=bool(case.get("sport_first")))
         if name in ("items", "ports", "sport") and not v.fails:
             after = snapshot(p)
             if len(set(cur["v"])) != len(cur["v"]):
@@ -327,7 +334,7 @@ def history_case(draw):
             ops.append(["line", new["op"], new["v"]])
         else:
             ops.append([kind])
-    return {"init": init, "ops": ops}
+    return {"init": init, "ops": ops, "sport_first": draw(st.booleans())}
 
 
 SUBS = [
